@@ -600,7 +600,7 @@ func init() {
 		ID:    "C18",
 		Level: "fault_enumeration",
 		Rule: "fault points: for each (writer, output size class below/above the 4 KiB buffer, batch arrival order, plain/gzip) the write crossing byte offset k is refused for k over the whole output (step 1 up to 8 KiB in the thorough tier, <= 160 sampled offsets per output in quick), plus a refused Close and short writes; end to end: commands writing to /dev/full (stdout and -o) and strace injecting ENOSPC on the N-th write(2) of the -o file, or EIO/ENOSPC on its close(2). Oracle: a refusal announced by the sink implies a non-zero exit status of the process (one helper process per fault point running the real writer; the commands themselves end to end). " +
-			"Added later: errno-shaped faults (ENOSPC, EPIPE, EIO, EINTR, EDQUOT), the default output path, a result without any record under write injection, close(2) faults on -o FILE and on the redirected standard output, an output pipe whose reader goes away. " +
+			"Added later: errno-shaped faults (ENOSPC, EPIPE, EIO, EINTR, EDQUOT), the default output path, a result without any record under write injection, close(2) faults on -o FILE and on the redirected standard output, an output pipe whose reader goes away. Transient (one-shot) write faults, inproc-big (9 / 17 MiB written as 1-2 KB batches, faults every KiB around 64 KiB, 1, 2, 4, 8, 16 MiB), the close fault also when the output file exists before the run. " +
 			"distinct_nontrivial = distinct (writer, fault kind, size class, compression, phase) classes in which a refusal was actually delivered + distinct (command, mode, size) / (command, size, N) end-to-end runs in which the fault was effective",
 		Assume:        []string{"helper process = real writer + faulty io.WriteCloser + obiiter.WaitForLastPipe, nothing else", "e2e: /dev/full returns ENOSPC on every write; strace -e inject fails exactly the N-th write(2) of each thread on the output path"},
 		Subs:          subs,
